@@ -80,6 +80,10 @@ func hugeRange(e ref.Expr, d map[string]ref.Value) bool {
 	return huge
 }
 
+// c06DefaultExprs: default values of header params that fail or are odd when evaluated.
+var c06DefaultExprs = []string{"$ij.locale", "$ij.nope.x", "7 % 0", "length(3)", "1 < 'a'", "$undeclaredButDefault", "range(-1)[0]", "[1, 2][5]", "['a': 1].b.c", "nosuchfunction(1)", "1 / 0", "-'x'",
+	"round('x')", "keys(1)", "randomInt(0)", "null", "[]", "[:]", "'s' + 1", "not null ? $ij.a.b : 1"}
+
 var c06Directives = []string{"insertWordBreaks", "changeNewlineToBr", "truncate", "id", "noAutoescape", "escapeHtml", "escapeUri", "escapeJsString", "bidiSpanWrap", "bidiUnicodeWrap", "json", "nosuchdirective"}
 var c06Functions = []string{"isNonnull", "length", "keys", "augmentMap", "round", "floor", "ceiling", "min", "max", "randomInt", "strContains", "range", "hasData", "index", "isFirst", "isLast", "nosuchfunction"}
 
@@ -239,6 +243,30 @@ var c06Families = []c06Family{
 		ctx.Cell("dir-hostile:" + dn)
 		totalRender(ctx, files, nil, "t.main", d, nil, k%3 == 0)
 		ctx.Eval(fmt.Sprintf("dh:%s:%d", dn, k/len(c06Directives)))
+		return fw.Result{Verdict: fw.Held}
+	}},
+	{"header-defaults", func(tier string) int { return len(c06DefaultExprs) * 6 }, func(ctx *fw.Ctx, k int) fw.Result {
+		// header params whose default value cannot be evaluated (or is of any type at all), in the entry template and
+		// in a callee, with the param omitted / null / given: whatever is done with a default, the render returns
+		ex := c06DefaultExprs[k%len(c06DefaultExprs)]
+		mode := (k / len(c06DefaultExprs)) % 6
+		src := "{namespace t}\n{template .main}\n{@param? n: any = " + ex + "}\n{@param? s: string = 'dflt'}\n[{$n ?: 'none'}|{$s ?: 'ns'}]{call .sub /}{call .sub}{param q: $n /}{/call}\n{/template}\n" +
+			"{template .sub}\n{@param? q: any = " + ex + "}\n({$q ?: 'nq'})\n{/template}\n"
+		d := map[string]ref.Value{}
+		switch mode % 3 {
+		case 1:
+			d["n"] = ref.Null
+		case 2:
+			d["n"] = ref.Int(5)
+		}
+		var ij *ref.Value
+		if mode >= 3 {
+			v := ref.MapOf("locale", ref.Str("en"))
+			ij = &v
+		}
+		ctx.Cell("header-default")
+		totalRender(ctx, []srcFile{{"hd.soy", src}}, nil, "t.main", d, ij, k%2 == 0 && ij == nil)
+		ctx.Eval(fmt.Sprintf("hd:%s:%d", ex, mode))
 		return fw.Result{Verdict: fw.Held}
 	}},
 	{"hostile-data", func(tier string) int {
